@@ -9,6 +9,9 @@
 //!   ht <counterparty_spendable_height> <current_height> <kind>:<expiry>,...   get_height_timer
 //!   lt <current_height> <kind>:<expiry>,...             package_locktime
 //!   thr <height> <kind> <csv|-1>                        confirmation_threshold
+//!   traj <weight> <input_amounts> <dust> <estimate0> <strategy>:<estimate>,...
+//!        first broadcast (compute_fee_from_spent_amounts) then successive feerate_bump calls, each
+//!        fed the feerate recorded by the previous successful call; prints `fee/rate` or `None` per step
 use lightning::chain::verif_hooks_package as pk;
 use lightning::ln::verif_hooks as vh;
 use verif_harness::*;
@@ -46,6 +49,27 @@ fn main() {
 			"pf" => format!("{}", pk::run_compute_package_feerate(n(1), n(2) as u8, n(3) as u32)),
 			"ht" => format!("{}", pk::run_get_height_timer(&inputs(toks[3]), n(1) as u32, n(2) as u32)),
 			"lt" => format!("{}", pk::run_package_locktime(&inputs(toks[2]), n(1) as u32)),
+			"traj" => {
+				let (w, amt, dust) = (n(1), n(2), n(3));
+				let mut out = Vec::new();
+				match pk::run_compute_fee_from_spent_amounts(amt, w, n(4) as u32) {
+					None => out.push("None".to_string()),
+					Some((f, r)) => {
+						out.push(format!("{}/{}", f, r));
+						let mut prev = r;
+						for (strat, est) in inputs(toks.get(5).copied().unwrap_or("")) {
+							match pk::run_feerate_bump(w, amt, dust, prev, strat, est) {
+								Some((f, r)) => {
+									out.push(format!("{}/{}", f, r));
+									prev = r;
+								},
+								None => out.push("None".to_string()),
+							}
+						}
+					},
+				}
+				out.join(" ")
+			},
 			"thr" => {
 				let csv: i64 = toks[3].parse().unwrap();
 				let csv = if csv < 0 { None } else { Some(csv as u16) };
